@@ -130,7 +130,7 @@ def lines_for(tag, tabs, all_lines):
     return out
 
 
-def run(ctx):
+def _run(ctx):
     ctx.level = "proof"
     quick = ctx.quick()
     tr_err = None
@@ -252,6 +252,22 @@ def run(ctx):
             what = "; ".join("C04_%s at %s" % (k, v["rows"][:4]) for k, v in unexplained.items()) or "no row named by the checkers (see build log)"
             ctx.proof["failed"] = ["%s  [%s]" % (", ".join(res["failed"]) or "translator", what)]
             ctx.proof_broken(extra)
+
+
+def run(ctx):
+    try:
+        _run(ctx)
+    finally:
+        if pv.REPO != "/repo":   # a scratch run must not leave the scratch tree's tables in coq/Gen
+            old = os.environ.get("PV_REPO")
+            try:
+                os.environ["PV_REPO"] = "/repo"
+                importlib.import_module("gen_optables").main()
+            except Exception:
+                pass
+            finally:
+                if old is not None:
+                    os.environ["PV_REPO"] = old
 
 
 def replay(ctx, obj):
